@@ -825,4 +825,56 @@ example : runOp ⟨2, ⟨0xfebd0000, 0x38⟩, ⟨0xfebd1000, 0x100⟩, 4, ⟨0xf
 example : (runOp ⟨2, ⟨0xfebd0000, 0x38⟩, ⟨0xfebd1000, 0x100⟩, 4, ⟨0xfebd2000, 1⟩, none⟩ .drop [0xf, 0xf]).1
     = [.w 8 0 20 0, .r 8 0 20 15, .r 8 0 20 15, .r 8 0 20 0] := by decide
 
+/-! ### "Suitably aligned for its use": every common-configuration access is naturally aligned
+
+The common-configuration window of an accepted transport is 8-aligned (`new_ok`); the fields are at
+the specification's offsets with the specification's widths (`ops_only_windows`), each naturally
+aligned within the structure.  Hence every 8/16/32/**64**-bit access any operation performs there is
+naturally aligned in physical address space — which is what the 64-bit stores to `queue_desc`,
+`queue_driver`, `queue_device` need.  (Seeded change C11-7 capped the required alignment at 4.) -/
+
+theorem field_aligned (off bits : Nat) (h : Spec.isField off bits = true) :
+    (bits = 8 ∨ bits = 16 ∨ bits = 32 ∨ bits = 64) ∧ off % (bits / 8) = 0 ∧ off + bits / 8 ≤ 56 := by
+  simp only [Spec.isField, Spec.commonCfg, List.any_cons, List.any_nil, Bool.or_false, Bool.or_eq_true,
+    Bool.and_eq_true, beq_iff_eq] at h
+  rcases h with h | h | h | h | h | h | h | h | h | h | h | h | h | h | h | h <;>
+    (obtain ⟨h1, h2⟩ := h; subst h1; subst h2; decide)
+
+theorem common_accesses_aligned (t : Transport) (op : Op) (script : List Nat) (hp : t.common.paddr % 8 = 0) :
+    ∀ a ∈ (runOp t op script).1,
+      match a with
+      | .r bits 0 off _ | .w bits 0 off _ => (t.common.paddr + off) % (bits / 8) = 0 ∧ off + bits / 8 ≤ 56
+      | _ => True := by
+  intro a ha
+  have hok := ops_only_windows t op script a ha
+  cases a with
+  | r bits win off v =>
+    cases win with
+    | zero =>
+      simp only [AccOk] at hok
+      rcases hok with ⟨_, hf⟩ | ⟨h, _⟩ | ⟨h, _⟩ | ⟨h, _⟩ <;> try (simp at h)
+      obtain ⟨hb, ho, hl⟩ := field_aligned off bits hf
+      refine ⟨?_, hl⟩
+      rcases hb with hb | hb | hb | hb <;> subst hb <;> simp at ho ⊢ <;> omega
+    | succ n => trivial
+  | w bits win off v =>
+    cases win with
+    | zero =>
+      simp only [AccOk] at hok
+      rcases hok with ⟨_, hf⟩ | ⟨h, _⟩ | ⟨h, _⟩ | ⟨h, _⟩ <;> try (simp at h)
+      obtain ⟨hb, ho, hl⟩ := field_aligned off bits hf
+      refine ⟨?_, hl⟩
+      rcases hb with hb | hb | hb | hb <;> subst hb <;> simp at ho ⊢ <;> omega
+    | succ n => trivial
+
+/-- the window of a transport that `new` accepted qualifies -/
+theorem new_common_aligned (decl : Nat → BarDecl) (hd : ∀ i, (decl i).Ok) (cmd st : Nat) (other : Nat → Nat)
+    (hc : CmdOk cmd) (h32 : ∀ o, (mkFn decl cmd st other).read o < W32) (t : Transport)
+    (h : (newT (mkFn decl cmd st other)).res = .ok t) (op : Op) (script : List Nat) :
+    ∀ a ∈ (runOp t op script).1,
+      match a with
+      | .r bits 0 off _ | .w bits 0 off _ => (t.common.paddr + off) % (bits / 8) = 0 ∧ off + bits / 8 ≤ 56
+      | _ => True :=
+  common_accesses_aligned t op script ((new_ok decl hd cmd st other hc h32).2.2 t h).1.2.2
+
 end VirtioVerif.Props.C11
